@@ -250,8 +250,11 @@ EXC_TYPES = {}
 
 def exc_type(i: int):
     """Injected exceptions come in several built-in flavours: containment must not depend on the type."""
-    bases = [Exception, RuntimeError, KeyError, AssertionError, TypeError, AttributeError, LookupError, NotImplementedError]
+    bases = [Exception, RuntimeError, KeyError, AssertionError, TypeError, AttributeError, LookupError, NotImplementedError, ExceptionGroup]
     b = bases[i % len(bases)]
+    if b is ExceptionGroup:
+        # a hook that raises a group of its own (e.g. from a nursery / TaskGroup it used): one exception like any other
+        return lambda n: ExceptionGroup(f"injected group {n}", [ValueError(n), KeyError(n)])
     if b not in EXC_TYPES:
         EXC_TYPES[b] = type(f"Injected{b.__name__}", (Injected, b), {}) if b is not Exception else Injected
     return EXC_TYPES[b]
@@ -390,10 +393,9 @@ def errors_in(st) -> List[BaseException]:
     out = []
     for s in walk_stacks(st):
         if s.error is not None:
+            out.append(s.error)                    # alone if it is the only one ...
             if isinstance(s.error, BaseExceptionGroup):
-                out.extend(s.error.exceptions)
-            else:
-                out.append(s.error)
+                out.extend(s.error.exceptions)     # ... inside a group otherwise
     return out
 
 
@@ -687,7 +689,7 @@ class C05(PropCheck):
             if base.error is not None and name != "custom":
                 problems.append(f"fault-free extraction already has an error: {base.error!r}")
             fired = 0
-            for k, flavour in [(k, fl) for k in range(1, total + 1) for fl in range(case.get("flavours", 8))]:
+            for k, flavour in [(k, fl) for k in range(1, total + 1) for fl in range(case.get("flavours", 9))]:
                 with Patcher(kind, k, flavour) as p:
                     try:
                         st = stackscope.extract(target, recurse_child_tasks=True)
